@@ -133,13 +133,16 @@ CHECKS = {
              "stoichiometry, for every state and rate constants (C09_forcing_conserves_linear_invariants); (2) the Rosenbrock "
              "integrator propagates every linear functional w. with w.f = 0 through every stage, attempt (accepted or rejected) "
              "and exit, for any coefficient table and history, given exact conservative linear solves "
-             "(C09_rosenbrock_propagates_linear_invariants: stage invariant w.K_i = 0, loop invariant w.Y = const). "
+             "(C09_rosenbrock_propagates_linear_invariants: stage invariant w.K_i = 0, loop invariant w.Y = const); (3) backward "
+             "Euler does the same through every Newton iteration, accepted, rejected and unconverged exit, for every run in "
+             "whose iterations the clamp at zero left w.y alone, read off the run's trace "
+             "(C09_backward_euler_propagates_linear_invariants: loop invariant w.Yn1 = w.Yn = const). "
              "Implementation: assembled solvers (both integrators, all configurations, the non-clipping overload of Solve) on "
              "random mechanisms conserving a positive weighted sum by construction (incl. reactions switched off by a zero rate "
              "constant, absent species, Troe and third-body reactions, per-cell air density): drift <= 1e-9 relative; runs in "
              "which backward Euler clipped an iterate are excluded, as the property states (add-only clip hook).",
         note="PARTIAL: the premise 'exact conservative solve' holds in exact arithmetic (C03/C04 + w^T J = 0) and up to rounding in "
-             "binary64: the oracle's tolerance covers the rounding. Backward Euler's conservation is validated, not proved.",
+             "binary64: the oracle's tolerance covers the rounding.",
         technique="Coq proof (ring identity; stage and loop invariants of the integrator) + conservation oracle on the assembled solvers",
         ref="6 C09"),
     "C10": dict(
